@@ -4,7 +4,7 @@
     hypothesis per body: the computed inverse of D = H^T P H is a symmetric inverse. *)
 From Coq Require Import List Reals.
 Import ListNotations.
-Require Import Num Vec Tree MB MB_Proofs Spatial Spatial_Proofs C02_Model C02_Proofs C02_Concrete.
+Require Import Num Vec Tree MB MB_Proofs Spatial Spatial_Proofs C02_Model C02_Proofs C02_Concrete C02_GJ.
 Local Open Scope R_scope.
 
 Section P.
@@ -14,5 +14,14 @@ Theorem C01_mulM_mulMInv_id (t : tree X) :
   (forall y, In y (flatten (abi_pass KR AR nd t)) -> body_ok nd dy y) ->
   Forall (fun r => snd r = d_f (dy (w_x (fst (fst r))))) (flatten (mulM_of_mulMInv KR AR nd dy t)).
 Proof. exact (mulM_mulMInv_id_R nd dy t). Qed.
+
+(** the same with the per-body hypothesis discharged for any number of mobilities (C02/C02_GJ.v: the Gauss-Jordan
+    inverse of the symmetric block D = H^T P H is a symmetric inverse whenever the elimination pivots are non-zero) *)
+Theorem C01_mulM_mulMInv_id_any_dof (t : tree X) :
+  (forall y, In y (flatten (abi_pass KR AR nd t)) ->
+     length (d_f (dy (fst y))) = length (n_H (nd (fst y))) /\ pivots_ok (a_D (snd y))) ->
+  Forall (fun r => snd r = d_f (dy (w_x (fst (fst r))))) (flatten (mulM_of_mulMInv KR AR nd dy t)).
+Proof. exact (mulM_mulMInv_id_pivots nd dy t). Qed.
 End P.
 Print Assumptions C01_mulM_mulMInv_id.
+Print Assumptions C01_mulM_mulMInv_id_any_dof.
